@@ -576,4 +576,70 @@ def ioSteps : List Action → List Step
   | .fail _ :: _ => []
   | _ :: rest => ioSteps rest
 
+/-! ## histories -/
+
+/-- what a handle shows: nodes in internal-id order, edges of segments and runs, properties of the
+    runs and those readable through the property tree of the manifest -/
+def treeEntries (t : TreeImg) : List Nat := t.leaves.flatMap (fun l => l.entries.filterMap id)
+
+def content (m : Mem) (vol : PImg) : Content :=
+  { nodes := m.exts
+    edges := m.segs.flatMap (·.2) ++ m.runs.flatMap (·.edges)
+    props := m.runs.flatMap (·.props) ++
+      (if m.proot = 0 then [] else
+        match vol.trees.find? (fun t => t.key == m.proot) with
+        | some t => (treeEntries t).filter (treeHas vol m.proot m.ptop)
+        | none => []) }
+
+/-- `GraphEngine::open` run to completion on the files `fs` -/
+def recover (cfg : Cfg) (fs : FS) : Except Err (Mem × FS) :=
+  let out := run (openA cfg fs.pv fs.wf) .none fs {}
+  match out.err with
+  | none => .ok (out.mem, out.fs)
+  | some e => .error e
+
+/-- where the process dies in one incarnation -/
+inductive Death where
+  | inOpen (k : Nat)                 -- inside `open`, at its I/O step k
+  | inCommit (tx : Tx) (k : Nat)     -- inside the commit of `tx`, at its I/O step k
+  | idle                             -- between two operations
+deriving Repr, Inhabited
+
+/-- one incarnation of the process: open, some commits that return, death -/
+structure Round where
+  commits : List Tx
+  death : Death
+  mode : CrashMode
+deriving Repr, Inhabited
+
+/-- commits run to completion through one handle -/
+def runCommits (cfg : Cfg) : FS → Mem → List Tx → FS × Mem
+  | fs, m, [] => (fs, m)
+  | fs, m, tx :: rest =>
+    let out := run (commitA cfg m fs.pv fs.wf tx) .none fs m
+    runCommits cfg out.fs out.mem rest
+
+/-- the files after one incarnation that started on the files `fs` -/
+def Round.after (cfg : Cfg) (fs : FS) (r : Round) : FS :=
+  match r.death with
+  | .inOpen k => (run (openA cfg fs.pv fs.wf) (.crashAt k) fs {}).fs.crash r.mode
+  | .idle =>
+    let o := run (openA cfg fs.pv fs.wf) .none fs {}
+    (runCommits cfg o.fs o.mem r.commits).1.crash r.mode
+  | .inCommit tx k =>
+    let o := run (openA cfg fs.pv fs.wf) .none fs {}
+    let s := runCommits cfg o.fs o.mem r.commits
+    (run (commitA cfg s.2 s.1.pv s.1.wf tx) (.crashAt k) s.1 s.2).fs.crash r.mode
+
+/-- what the caller has seen of the incarnation -/
+def Round.obs (r : Round) : Spec.RoundObs :=
+  match r.death with
+  | .inOpen _ => ⟨[], none⟩
+  | .idle => ⟨r.commits, none⟩
+  | .inCommit tx _ => ⟨r.commits, some tx⟩
+
+def afterRounds (cfg : Cfg) : FS → List Round → FS
+  | fs, [] => fs
+  | fs, r :: rest => afterRounds cfg (r.after cfg fs) rest
+
 end Nervus.Crash
